@@ -188,6 +188,41 @@ func (n *hnode) Close(ctx context.Context) error {
 	return nil
 }
 
+// doneCtx is a done context of a type that is not from the context package
+type doneCtx struct{ ch chan struct{} }
+
+func (d doneCtx) Deadline() (time.Time, bool)       { return time.Time{}, false }
+func (d doneCtx) Done() <-chan struct{}             { return d.ch }
+func (d doneCtx) Err() error                        { return context.Canceled }
+func (d doneCtx) Value(key interface{}) interface{} { return nil }
+
+// callerCtx: kind 0 = the live context; kind 1 = a context that is already done, of one of four sorts (cancelled, deadline in
+// the past, cancelled with a custom cause, a non-context-package type). The registry does not depend on the caller's context:
+// the model ignores it.
+func callerCtx(ctx context.Context, kind, salt int) context.Context {
+	if kind != 1 {
+		return ctx
+	}
+	switch salt % 4 {
+	case 0:
+		c2, cancel := context.WithCancel(ctx)
+		cancel()
+		return c2
+	case 1:
+		c2, cancel := context.WithDeadline(ctx, time.Unix(1, 0))
+		_ = cancel
+		return c2
+	case 2:
+		c2, cancel := context.WithCancelCause(ctx)
+		cancel(errors.New("caller gave up"))
+		return c2
+	default:
+		ch := make(chan struct{})
+		close(ch)
+		return doneCtx{ch: ch}
+	}
+}
+
 // ---------- operations ----------
 type Op struct {
 	K    string `json:"k"` // regnode rmnode regpipe rmpipe rpan thr thrs reopen
@@ -441,11 +476,7 @@ func (w *world) apply(op Op, closeFails map[int]bool) Obs {
 		err := w.b.RegisterNode(nid(op.ID), node, polOpt(op.Pol, true)...)
 		o.Ok, o.Err = err == nil, err != nil
 	case "rmnode":
-		if op.Wrap == 1 {
-			c2, cancel := context.WithCancel(ctx)
-			cancel()
-			ctx = c2
-		}
+		ctx = callerCtx(ctx, op.Wrap, op.ID+op.Pid+op.Fail)
 		err := w.b.RemoveNode(ctx, nid(op.ID))
 		o.Ok, o.Err = err == nil, err != nil
 	case "regpipe":
@@ -459,11 +490,7 @@ func (w *world) apply(op Op, closeFails map[int]bool) Obs {
 		err := w.b.RemovePipeline(ety(op.Ety), pid(op.Pid))
 		o.Ok, o.Err = err == nil, err != nil
 	case "rpan":
-		if op.Wrap == 1 {
-			c2, cancel := context.WithCancel(ctx)
-			cancel()
-			ctx = c2
-		}
+		ctx = callerCtx(ctx, op.Wrap, op.ID+op.Pid+op.Fail)
 		ok, err := w.b.RemovePipelineAndNodes(ctx, ety(op.Ety), pid(op.Pid))
 		o.Ok, o.Err = ok, err != nil
 	case "thr":
@@ -473,12 +500,7 @@ func (w *world) apply(op Op, closeFails map[int]bool) Obs {
 		err := w.b.SetSuccessThresholdSinks(ety(op.Ety), int(op.V))
 		o.Ok, o.Err = err == nil, err != nil
 	case "reopen":
-		if op.Wrap == 1 {
-			// the caller's context is already cancelled: C20 does not make Reopen depend on it
-			c2, cancel := context.WithCancel(ctx)
-			cancel()
-			ctx = c2
-		}
+		ctx = callerCtx(ctx, op.Wrap, op.ID+op.Pid+op.Fail)
 		for _, h := range w.all {
 			h.mu.Lock()
 			h.reopened = 0
